@@ -325,6 +325,11 @@ func (vt *Model) cht(ps int) {
 		vt.cursor.col = ts
 		n += 1
 	}
+	// Tab stops are set every 8 columns up to column 350: never move beyond
+	// the right margin
+	if vt.cursor.col > vt.margin.right {
+		vt.cursor.col = vt.margin.right
+	}
 }
 
 // Erase in Display (ED) CSI Ps J
